@@ -476,13 +476,30 @@ func runC14Operand() *RunResult {
 	// a value-group operand (existence tests only): the function is called for EVERY value the
 	// group path selects for a member, in order - not just for the one the test needs
 	group := chance(25)
+	rootRef := false
 	if group {
-		suffix += pick([]string{".*", "[*]", "..a", "..*", "[0:2]", "[0,1]", "['a','b']"})
+		suffix += pick([]string{".*", "[*]", "..a", "..*", "[0:2]", "[0,1]", "['a','b']", "[::-1]", "[*,*]"})
+		if !rooted && len(members) <= 48 && chance(50) {
+			// a filter inside the operand's own path that refers to the ROOT of the document:
+			// '$' below an '@' operand (and below a function's parameter) is still the root
+			ref := "[0]"
+			if dm, ok := doc.Val.(map[string]interface{}); ok {
+				ref = ".a"
+				for _, k := range sortedKeys(dm) {
+					if dotOK(k) && chance(50) {
+						ref = "." + k
+						break
+					}
+				}
+			}
+			suffix += pick([]string{"[?(@ != $" + ref + ")]", "[?($" + ref + ")]", "[?(!$" + ref + ".zz)]", "[?(@ == $" + ref + " || @)]"})
+			rootRef = true
+		}
 	}
 	operand := root + suffix + "." + funcNames[f] + "()"
 	var query string
 	qk := rn(4)
-	if group {
+	if group && !isAggregate(f) {
 		qk = rn(2)
 	}
 	switch qk {
@@ -523,13 +540,38 @@ func runC14Operand() *RunResult {
 	if rooted {
 		srcs = []interface{}{doc.Val}
 	}
-	for _, m := range srcs {
+	var memberSel []string
+	switch t := cur.(type) {
+	case map[string]interface{}:
+		for _, k := range sortedKeys(t) {
+			memberSel = append(memberSel, "["+quoteName(k, false)+"]")
+		}
+	case []interface{}:
+		for j := range t {
+			memberSel = append(memberSel, "["+itoa(j)+"]")
+		}
+	}
+	for mi, m := range srcs {
 		if opFn.Fn == nil {
 			sels = append(sels, sel{})
 			continue
 		}
-		simrt.OpStart()
-		r, _ := safeCall(opFn.Fn, m)
+		var r []interface{}
+		if rootRef {
+			// what the operand selects for this member is what the full path down to the
+			// member plus the operand's path selects in the document ('$' keeps its meaning)
+			full := soloParse(&PathSpec{Text: prefix + memberSel[mi] + suffix}, CfgSpec{})
+			if full.Fn == nil {
+				opFn = full
+				sels = append(sels, sel{})
+				continue
+			}
+			simrt.OpStart()
+			r, _ = safeCall(full.Fn, doc.Val)
+		} else {
+			simrt.OpStart()
+			r, _ = safeCall(opFn.Fn, m)
+		}
 		if group {
 			sels = append(sels, sel{ok: len(r) > 0, vs: r})
 		} else if len(r) == 1 {
@@ -625,6 +667,9 @@ func runC14Operand() *RunResult {
 	drawSchedule(nt, &w.cfg)
 	res := w.run()
 	res.Probes["function-inside-filter-operand-case"]++
+	if rootRef && n > 0 {
+		res.Probes["operand-path-with-a-filter-that-refers-to-the-root"]++
+	}
 	if n > 0 {
 		res.Cases = []uint64{fnv(p.Text + "|" + cfg.String() + "|" + doc.Snap)}
 		res.Probes["fault-plans-executed"] += len(plans)
